@@ -6,7 +6,8 @@ Require Import Hdl21.Base.PyInt Hdl21.Spec.PySlice Hdl21.Model.Slice Hdl21.Model
                Hdl21.Spec.C01ENets Hdl21.Model.C01EElab
                Hdl21.Proofs.ResolveProofs Hdl21.Proofs.C01EProofsGraph Hdl21.Proofs.C01EProofsBase Hdl21.Proofs.C01EProofsPass
                Hdl21.Proofs.C01EProofsSim Hdl21.Proofs.C01EProofsWfs Hdl21.Proofs.C01EProofsNames Hdl21.Proofs.C01EProofsSlices
-               Hdl21.Proofs.C01EProofsArrays Hdl21.Proofs.C01EProofsExport Hdl21.Proofs.C01EProofsPortRefs Hdl21.Proofs.C01EProofsPortRefsD.
+               Hdl21.Proofs.C01EProofsArrays Hdl21.Proofs.C01EProofsExport Hdl21.Proofs.C01EProofsPlan Hdl21.Proofs.C01EProofsPortRefs
+               Hdl21.Proofs.C01EProofsPortRefsD.
 Open Scope Z_scope.
 
 (* ---- xinfo_ok talks about the leaf devices only, and no pass changes what an instance is an instance of ---- *)
@@ -114,4 +115,62 @@ Proof.
   destruct (slices_wfs d2 d3 W2 H3) as [W3 [NA3 R3]].
   pose proof (slices_xinfo xi d2 d3 H3 (arrays_xinfo xi d1 d2 H2 (portrefs_xinfo xi d d1 H1 Hxi))) as Hxi3.
   destruct (export_sound xi d3 W3 NA3 R3 Hxi3) as [p [_ [_ [Hp _]]]]. left. eauto.
+Qed.
+
+(* ---- every terminal of Spec/Nets.v:terminals is a valid node, with the device the list records ---- *)
+Lemma elems_ok x e : In e (elems x) -> elem_ok x e = true.
+Proof.
+  unfold elems, elem_ok. destruct (i_n x <=? 0) eqn:E; [intros [<-|[]]; reflexivity|].
+  intros H. apply iota_in in H. destruct H as [k [Hk ->]]. lia.
+Qed.
+
+Lemma cat_results_In {A B} (f : A -> result (list B)) l r y : cat_results (map f l) = Ok r -> In y r ->
+  exists x ys, In x l /\ f x = Ok ys /\ In y ys.
+Proof.
+  intros H Hy. apply cat_results_map_ok in H. destruct H as [rs [Hrs ->]]. apply in_concat in Hy. destruct Hy as [ys [Hys Hy]].
+  apply traverse_Forall2 in Hrs. destruct (Forall2_In_r _ _ _ ys Hrs Hys) as [x [Hx Hfx]]. eauto.
+Qed.
+
+Lemma dev_terms_valid xi d : wf_design d = Ok tt -> xinfo_ok xi d = true ->
+  forall fuel m p ts, vmod_at d p = Ok m -> dev_terms d fuel m p = Ok ts ->
+  forall n dev, In (n, dev) ts -> valid d n /\ dev_at d n = Ok dev.
+Proof.
+  intros Hwf Hxi. destruct (wf_design_inv _ Hwf) as [_ [_ Hmods]].
+  induction fuel as [|f IH]; intros m p ts Hm H n dev Hin; cbn [dev_terms] in H; [discriminate|].
+  destruct (vmod_at_nth _ _ _ Hm) as [km Hkm]. pose proof (Hmods km m (proj1 (nth_mod_nth _ _ _) Hkm)) as Hwm.
+  destruct (wf_module_inv _ _ _ Hwm) as [_ [Hnd [_ Hi]]].
+  assert (NoDup (map i_name (m_insts m))) as Hndi by (unfold mod_names in Hnd; apply NoDup_app_r in Hnd; apply NoDup_app_r in Hnd; exact Hnd).
+  destruct (cat_results_In _ _ _ _ H Hin) as [x [ys [Hx [Hfx Hy]]]]. cbv beta in Hfx.
+  destruct (cat_results_In _ _ _ _ Hfx Hy) as [e [zs [He [Hfe Hz]]]]. cbv beta in Hfe.
+  pose proof (find_inst_unique _ _ Hndi Hx) as Hfind. pose proof (elems_ok x e He) as Heok.
+  destruct (i_of x) as [k|dv ps] eqn:Eo.
+  - destruct (nth_mod d k) as [mk|] eqn:Ek; cbn [bind] in Hfe; [|discriminate].
+    apply (IH mk ((i_name x, e) :: p) zs); [|exact Hfe|exact Hz].
+    apply vmod_at_cons. exists m, x, k. auto.
+  - inversion Hfe; subst zs. apply in_concat in Hz. destruct Hz as [l [Hl Hz]]. apply in_map_iff in Hl. destruct Hl as [pw [<- Hpw]].
+    apply in_map_iff in Hz. destruct Hz as [n' [E Hn']]. inversion E; subst n' dev. unfold bits_of_port in Hn'. apply in_map_iff in Hn'.
+    destruct Hn' as [k [<- Hk]]. apply iota_in in Hk. destruct Hk as [j [Hj ->]].
+    destruct (xinfo_dev xi d km m x dv ps Hxi Hkm Hx Eo) as [v [ex [_ [_ [Hw1 [Hndp _]]]]]].
+    assert (assoc (fst pw) ps = Some (snd pw)) as Ha by (destruct pw; apply assoc_nodup_In'; assumption).
+    rewrite forallb_forall in Hw1. specialize (Hw1 pw Hpw).
+    split.
+    + exists m, x, (snd pw). split; [exact Hm|]. split; [exact Hfind|]. split; [exact Heok|].
+      split; [unfold port_width, target_ports; rewrite Eo; cbn [bind]; rewrite Ha; reflexivity|lia].
+    + cbn [dev_at]. rewrite Hm. cbn [bind]. rewrite Hfind. cbn [ofopt bind]. rewrite Eo. reflexivity.
+Qed.
+
+Theorem terminals_valid xi d ts : wf_design d = Ok tt -> xinfo_ok xi d = true -> terminals d = Ok ts ->
+  forall n dev, In (n, dev) ts -> valid d n /\ dev_at d n = Ok dev.
+Proof.
+  intros Hwf Hxi H n dev Hin. unfold terminals in H. apply bind_ok in H. destruct H as [top [Ht H]]. apply bind_ok in H. destruct H as [devs [Hd H]].
+  inversion H; subst ts. assert (vmod_at d [] = Ok top) as Hm by (unfold vmod_at; rewrite Ht; reflexivity).
+  apply in_app_or in Hin. destruct Hin as [Hin|Hin]; [|eapply dev_terms_valid; eassumption].
+  apply in_concat in Hin. destruct Hin as [l [Hl Hin]]. apply in_map_iff in Hl. destruct Hl as [pw [<- Hpw]].
+  apply in_map_iff in Hin. destruct Hin as [n' [E Hn']]. inversion E; subst n' dev. unfold bits_of_port in Hn'. apply in_map_iff in Hn'.
+  destruct Hn' as [k [<- Hk]]. apply iota_in in Hk. destruct Hk as [j [Hj ->]].
+  destruct (wf_design_inv _ Hwf) as [_ [_ Hmods]]. pose proof (Hmods _ top (proj1 (nth_mod_nth _ _ _) Ht)) as Hwm.
+  destruct (wf_module_inv _ _ _ Hwm) as [_ [Hnd [Hw _]]].
+  assert (NoDup (map fst (m_ports top))) as Hndp by (unfold mod_names in Hnd; apply (NoDup_app_l _ _ Hnd)).
+  split; [|reflexivity]. exists top, (snd pw). split; [exact Hm|]. split; [|lia].
+  destruct pw as [s w]. cbn [fst snd]. unfold sig_width. rewrite (assoc_nodup_In' s w _ Hndp Hpw). reflexivity.
 Qed.
